@@ -30,75 +30,99 @@ Theorem C04_frame_atomicity :
 Proof. exact frame_atomicity. Qed.
 Print Assumptions C04_frame_atomicity.
 
-(** (P1) A reverted frame — whatever it contains, including whole precompile calls — leaves the
+(** (P1) A reverted frame — whatever it contains, including whole precompile calls whose bodies move
+    bank coins, write EVM state (ERC20 mint / burn / transfer), open nested frames and make nested
+    precompile calls; [nosend]: bank sends sit inside precompile bodies — leaves the
     StateDB in a state that differs from the one before the frame only by harmless caching
     ([le]: same journal, same tx store, same CURRENT store, same dirty counts up to 0/absent, same
     objects up to cached committed slots). *)
 Theorem C04_reverted_frame_invisible :
-  forall (body : list prog) (s : sdb), WFJ s ->
+  forall (body : list prog) (s : sdb), forallb nosend body = true -> WFJ s ->
     le s (run (PFrame body true) s) /\ WFJ (run (PFrame body true) s).
 Proof. exact reverted_frame_invisible. Qed.
 Print Assumptions C04_reverted_frame_invisible.
 
-(** BALANCE VIEWS.  At every program point [s] reachable by a well-formed script (any depth),
-    inside the body of a precompile call made there that is not refused by the limit — after
-    OnRunStart and after each of its bank sends, hence at its return — for every account that has
-    not self-destructed: bank balance on the cache ctx = StateDB balance / 10^12. *)
+(** BALANCE VIEWS.  (1) At every program point of every well-formed script — at any depth, inside or
+    outside precompile bodies ([reach]) — the bank module holds for every account exactly what the
+    reference records as the bank's view ([r_base]).  (2) Right after a successful OnRunStart that is,
+    for every account that has not self-destructed, its StateDB balance / 10^12.  (3) A bank send
+    re-establishes that for both parties (EVM writes made by the body do not touch the bank). *)
+Theorem C04_bank_view_tracked :
+  forall (mx : Z) (bl : list addr) (t0 : store) (inb : bool) (s : sdb) (r : rstate) (a : addr),
+    reach mx bl t0 inb s r -> bank_bal (cur_store s) a = r_base r a.
+Proof. exact bank_view_tracked. Qed.
+Print Assumptions C04_bank_view_tracked.
+
 Theorem C04_balance_views_agree :
-  forall (mx : Z) (bl : list addr) (t0 : store) (s : sdb) (r : rstate) (sends : list (addr * addr * Z)) (fails : bool) (i : nat),
-    reach mx bl t0 s r -> wf mx (PPrecompile sends fails) r = true -> (mx <? calls s + 1) = false ->
-    r_pending (r_with_calls r (calls s + 1)) = false ->
-    let s' := run_sends (firstn i sends) (commit_cache (precompile_snapshot s)) in
-    forall a o, lookup s' a = Some o -> suicided o = false -> bank_bal (cur_store s') a = to_native (bal o).
-Proof. exact balance_views_agree. Qed.
+  forall (mx : Z) (bl : list addr) (t0 : store) (inb : bool) (s : sdb) (r : rstate) (a : addr) (o : obj),
+    reach mx bl t0 inb s r ->
+    (mx <? r_calls r + 1) = false -> r_pending (r_with_calls r (r_calls r + 1)) = false ->
+    let s' := commit_cache (precompile_snapshot s) in
+    lookup s' a = Some o -> suicided o = false -> bank_bal (cur_store s') a = to_native (bal o).
+Proof. exact views_agree_after_on_run_start. Qed.
 Print Assumptions C04_balance_views_agree.
+
+Theorem C04_balance_views_agree_after_send :
+  forall (s : sdb) (c : store) (f t : addr) (amt : Z) (x : addr),
+    cache s = Some c -> (amt <=? 0) || (bank_bal c f <? amt) = false -> x = f \/ x = t ->
+    let s' := bank_send s f t amt in
+    exists o, lookup s' x = Some o /\ bank_bal (cur_store s') x = to_native (bal o).
+Proof. exact views_agree_after_send. Qed.
+Print Assumptions C04_balance_views_agree_after_send.
 
 (** READS.  At every reachable program point GetState(a,k) returns the reference's value of the
     slot and GetCommittedState(a,k) the value the slot had when the transaction started — in
     particular a reverted frame (with or without precompile calls) leaves no trace in either. *)
 Theorem C04_reads_see_reference :
-  forall (mx : Z) (bl : list addr) (t0 : store) (s : sdb) (r : rstate) (a : addr) (k : key),
-    reach mx bl t0 s r ->
+  forall (mx : Z) (bl : list addr) (t0 : store) (inb : bool) (s : sdb) (r : rstate) (a : addr) (k : key),
+    reach mx bl t0 inb s r ->
     read_vals s a k = match r_accs r a with Some _ => (r_stor r a k, stor t0 a k) | None => (0, 0) end.
 Proof. exact reads_see_reference_reach. Qed.
 Print Assumptions C04_reads_see_reference.
 
-(** CALL LIMIT.  When the counter has reached the limit, one more precompile call is refused:
-    the state is (a refinement of) the state before the call, the counter still advances, and what
-    Commit would write is unchanged. *)
-Theorem C04_call_limit :
-  forall (mx : Z) (s : sdb) (r : rstate) (sends : list (addr * addr * Z)) (fails : bool),
-    Inv mx s r -> mx < calls s + 1 ->
-    le s (precompile_call s sends fails) /\
-    calls (precompile_call s sends fails) = calls s + 1 /\
-    store_eq (commit (precompile_call s sends fails)) (commit s).
-Proof. exact call_limit. Qed.
-Print Assumptions C04_call_limit.
-
-(** REFUSED CALLS in general: over the limit, or the pre-run flush fails because a blocked module
-    account would have to be credited (commitCtx stops at the first error, after having written the
-    dirty accounts sorted before it): the call fails, the state is (a refinement of) the state
+(** REFUSED CALLS: over the limit, or the pre-run flush fails because a blocked module account would
+    have to be credited (commitCtx stops at the first error, after having written the dirty accounts
+    sorted before it): the call fails whatever its body, the state is (a refinement of) the state
     before it — the written prefix is undone by the PrecompileCalled entry that is already in the
-    journal — and what Commit would write is unchanged. *)
+    journal — the counter still advances and what Commit would write is unchanged. *)
 Theorem C04_refused_call_has_no_effect :
-  forall (mx : Z) (s : sdb) (r : rstate) (sends : list (addr * addr * Z)) (fails : bool),
+  forall (mx : Z) (s : sdb) (r : rstate) (body : list prog) (fails : bool),
     Inv mx s r -> (mx < calls s + 1 \/ r_pending (r_with_calls r (calls s + 1)) = true) ->
-    le s (precompile_call s sends fails) /\
-    calls (precompile_call s sends fails) = calls s + 1 /\
-    store_eq (commit (precompile_call s sends fails)) (commit s).
+    let s' := run (PPrecompile body fails) s in
+    le s s' /\ calls s' = calls s + 1 /\ store_eq (commit s') (commit s).
 Proof. exact refused_call. Qed.
 Print Assumptions C04_refused_call_has_no_effect.
 
-(** … and the counter counts every precompile call of the script, reverted or not, at any depth. *)
+Theorem C04_call_limit :
+  forall (mx : Z) (s : sdb) (r : rstate) (body : list prog) (fails : bool),
+    Inv mx s r -> mx < calls s + 1 ->
+    let s' := run (PPrecompile body fails) s in
+    le s s' /\ calls s' = calls s + 1 /\ store_eq (commit s') (commit s).
+Proof. exact call_limit. Qed.
+Print Assumptions C04_call_limit.
+
+(** … and every precompile call that is reached counts, reverted or not, at any depth. *)
 Theorem C04_every_call_counts :
-  forall (p : prog) (s : sdb), calls (run p s) = calls s + Z.of_nat (ncalls p).
-Proof. exact run_counts_calls. Qed.
+  forall (body : list prog) (fails : bool) (s : sdb), calls s + 1 <= calls (run (PPrecompile body fails) s).
+Proof. exact every_call_counts. Qed.
 Print Assumptions C04_every_call_counts.
+
+(** A REVERTED FRAME IS A NO-OP for what gets committed, whatever it contains (incl. precompile bodies
+    that write EVM state and bank state), and the state after it simulates the same reference state:
+    erasing the reverted frames of a script does not change what it commits.  (The driver that calls
+    the real FunToken methods checks exactly this on the implementation.) *)
+Theorem C04_reverted_frame_is_noop :
+  forall (mx : Z) (s : sdb) (r : rstate) (body : list prog),
+    Inv mx s r -> wf mx false (PFrame body true) r = true ->
+    let s' := run (PFrame body true) s in
+    le s s' /\ store_eq (commit s') (commit s) /\ Inv mx s' (r_with_calls r (calls s')).
+Proof. exact reverted_frame_noop. Qed.
+Print Assumptions C04_reverted_frame_is_noop.
 
 (** Every reachable program point satisfies the invariant used above (so C04_call_limit applies
     at every point of every well-formed script). *)
 Theorem C04_reachable_invariant :
-  forall (mx : Z) (bl : list addr) (t0 : store) (s : sdb) (r : rstate), reach mx bl t0 s r -> Inv mx s r.
+  forall (mx : Z) (bl : list addr) (t0 : store) (inb : bool) (s : sdb) (r : rstate), reach mx bl t0 inb s r -> Inv mx s r.
 Proof. exact reach_Inv. Qed.
 Print Assumptions C04_reachable_invariant.
 
@@ -127,3 +151,31 @@ Theorem C04_frame_atomicity_refuted_before_fix :
          [w_lost_sstore; w_supply_mint; w_stale_object; w_forgotten_selfdestruct].
 Proof. exact frame_atomicity_refuted_before_fix. Qed.
 Print Assumptions C04_frame_atomicity_refuted_before_fix.
+
+(** NESTED PRECOMPILE CALLS AND THE BODY'S CONTEXT.  [run_h live] is the model with the multistore
+    OBJECT held by a running precompile body made explicit.  [live := true] — the context resolves to
+    the StateDB's current cache multistore, as the code does since the repair "cacheStore cell" — is
+    the model all theorems above are about, whatever the handles, epochs and detached objects. *)
+Theorem C04_live_ctx_is_main_model :
+  forall (p : prog) (hd : option nat) (h : hst), h_db (run_h true hd p h) = run p (h_db h).
+Proof. exact run_h_live. Qed.
+Print Assumptions C04_live_ctx_is_main_model.
+
+(** The code before that repair ([live := false], [run_stale]: a body keeps the multistore object it
+    was started with, PrecompileCalled.Revert lets the StateDB go on with another one) violates frame
+    atomicity: a well-formed script — a precompile body that, like FunToken.sendToBank calling an
+    ERC20, contains a nested precompile call that fails (only that call frame is reverted) and then
+    moves bank coins itself — on which the old code commits 95/51 where the reference, and the model
+    of the current code, commit 99/51: what the body did AFTER the reverted frame is lost and the
+    reverted frame's own bank move leaks into the committed balances. *)
+Theorem C04_nested_stale_ctx_refuted :
+  exists w : list prog,
+    wf_body 10 w (r_init [] t_w) = true /\
+    agrees_stale_at 10 t_w w [1; 2; 3; 4] [1] = false /\
+    agrees_at true 10 t_w w [1; 2; 3; 4] [1] = true /\
+    (let old := commit (run_stale (PFrame w false) (init {| repaired := true; maxc := 10; blocked := [] |} t_w)) in
+     let ref := r_final (rrun 10 (PFrame w false) (r_init [] t_w)) in
+     map (acct_of old) [1; 2; 3] = [Some (95, 1, 0); Some (51, 0, 0); None] /\
+     map (acct_of ref) [1; 2; 3] = [Some (99, 1, 0); Some (51, 0, 0); None]).
+Proof. exact nested_stale_ctx_refuted. Qed.
+Print Assumptions C04_nested_stale_ctx_refuted.
